@@ -67,6 +67,44 @@ def deep_patterns(rng, n):
     return out
 
 
+# ---- nested lists: f(g(inner...), outer...) with shared metavariables (reference = full backtracking)
+NESTED = [
+    (["...", "x", "..."], ["x"]), (["...", "x"], ["...", "x"]), (["x", "..."], ["x", "..."]), (["...", "x", "..."], ["...", "x", "..."]),
+    (["...", "x", "...", "y", "..."], ["y", "x"]), (["...", "x", "..."], ["a", "x"]), (["x"], ["...", "x", "..."]), (["...", "x", "..."], ["x", "x"]),
+]
+
+
+def nested_solutions(inner, outer, il, ol):
+    """all bindings under which g(inner) matches g(il) and then outer matches ol, in the order a depth-first matcher meets them"""
+    out = []
+    def go(pat, lst, i, j, b, k):
+        if i == len(pat):
+            if j == len(lst):
+                k(b)
+            return
+        p = pat[i]
+        if p == "...":
+            for m in range(j, len(lst) + 1):
+                go(pat, lst, i + 1, m, b, k)
+            return
+        if j >= len(lst):
+            return
+        if p in VARS:
+            if p not in b:
+                go(pat, lst, i + 1, j + 1, dict(b, **{p: lst[j]}), k)
+            elif b[p] == lst[j]:
+                go(pat, lst, i + 1, j + 1, b, k)
+        elif p == lst[j]:
+            go(pat, lst, i + 1, j + 1, b, k)
+    go(inner, il, 0, 0, {}, lambda b: go(outer, ol, 0, 0, b, out.append))
+    return out
+
+
+def nested_patch(inner, outer):
+    used = [v for v in VARS if v in inner + outer]
+    return ("@@\nvar x, y expression\n@@\n-f(g(%s), %s)\n+h(%s)\n" % (", ".join(inner), ", ".join(outer), ", ".join(used))).encode(), used
+
+
 def patterns(maxlen):
     for n in range(1, maxlen + 1):
         for p in itertools.product(SYMS, repeat=n):
@@ -166,6 +204,14 @@ def main():
     for pat in deep:
         pairs.append(("p.patch", patch_args(pat, ("f(", "g("), ")"), "a.go", file_args(deep_lists, "f(", ")")))
         names.append("deep:%s" % " ".join(pat)); meta.append(("deep", pat, ("f(", "g("), ")"))
+    # nested lists sharing metavariables
+    nl = [list(l) for n in range(0, 4) for l in _it.product(["a", "b"], repeat=n)]
+    for inner, outer in NESTED:
+        ptxt, used = nested_patch(inner, outer)
+        combos = [(il, ol) for il in nl for ol in nl if len(ol) <= 3]
+        body = "\n".join("\t_ = f(g(%s), %s)" % (", ".join(il), ", ".join(ol)) if ol else "\t_ = f(g(%s))" % ", ".join(il) for il, ol in combos)
+        pairs.append(("p.patch", ptxt, "a.go", ("package p\n\nfunc h0() {\n%s\n}\n" % body).encode()))
+        names.append("nested:g(%s), %s" % (" ".join(inner), " ".join(outer))); meta.append(("nested", (inner, outer, used, combos), None, None))
     # statement blocks: implicit elision at both ends; explicit elements only (a pattern must not start or end with "...")
     # (a single statement is an expression pattern: every instance is rewritten, not only the first)
     spats = [p for p in pats if len(p) >= 2 and p[0] != "..." and p[-1] != "..." and "x" not in p]
@@ -180,9 +226,13 @@ def main():
     for nm, pn, ps, fn, fs in enginegen.golden_pairs():
         if b"..." in ps:
             pairs.append((pn, ps, fn, fs)); names.append("golden:" + nm); meta.append(("golden", None, None, None))
-    res = enginecorr.run(pairs)
     npairs = 0
-    for name, pair, o, (kind, pat, opener, closer) in zip(names, pairs, res, meta):
+    CH = 48          # processed in chunks: a case carries a whole file tree three times (input, model, gopatch)
+    def results():
+        for c0 in range(0, len(pairs), CH):
+            for o in enginecorr.run(pairs[c0:c0 + CH]):
+                yield o
+    for name, pair, o, (kind, pat, opener, closer) in zip(names, pairs, results(), meta):
         ck.count(name, nontrivial=not o["skipped"])
         ck.tally("kind", kind)
         # ---- direct oracle: reference decomposition from the property text, per (pattern, list) pair
@@ -204,6 +254,21 @@ def main():
                         ck.violation("pattern [%s] against list [%s] in %s: expected %s, gopatch produced %s"
                                      % (" ".join(pat), " ".join(l), kind, want, g),
                                      {"patch": pair[1].decode(), "list": l, "expected": want, "got": g, "kind": kind})
+        if kind == "nested" and not o["skipped"]:
+            inner, outer, used, combos = pat
+            got = parse_out_args((unb64(r["out"]) if r.get("out") else pair[3]))
+            if len(got) == len(combos):
+                for (il, ol), g in zip(combos, got):
+                    npairs += 1
+                    sols = nested_solutions(inner, outer, il, ol)
+                    orig = "f(g(%s)%s)" % (", ".join(il), "".join(", " + e for e in ol))
+                    want = "h(%s)" % ", ".join(sols[0][v] for v in used) if sols else orig
+                    norm = lambda t: re.sub(r"\s+", "", t)
+                    if norm(g) != norm(want):
+                        # F1b: the inner list's first decomposition is final; a later one would have let the outer list match
+                        fc = "nested-list-first-solution-only" if (sols and norm(g) == norm(orig) and "..." in inner and any(v in inner and v in outer for v in VARS)) else None
+                        ck.violation("nested pattern f(g(%s), %s) against %s: expected %s, gopatch produced %s" % (" ".join(inner), " ".join(outer), orig, want, g),
+                                     {"patch": pair[1].decode(), "target": orig, "expected": want, "got": g, "kind": kind}, finding_class=fc)
         if kind == "stmts" and not o["skipped"]:
             ls = base_lists
             out = (unb64(r["out"]) if r.get("out") else pair[3]).decode("utf-8", "replace")
